@@ -46,6 +46,8 @@ def variant_command(form, w, proj):
     if proj.toolchain:
         extra.append('--toolchain=' + os.path.join(w.src, proj.toolchain))
     extra += list(proj.conf_args)
+    if not any(a.startswith('--prefix') for a in proj.conf_args):
+        extra.append('--prefix=' + os.path.join(w.root, 'prefix'))
     prog = os.path.join(w.bin, 'bfg9000')
     if form == 'src:abs':
         return prog, ['configure', w.build] + extra, w.src
